@@ -159,8 +159,10 @@ def run(tier, seed):
     n = 1500 if tier == "quick" else 20000
     rng = core.rng_for(PROP, seed)
     cases = expand_corpus.corpus("c02", n, rng)
+    pin = core.Case("c02known_empty_where", "#[::entrait::entrait(Tr)] /*@inv*/\nfn f<D>(deps: &D) where { let x = 1; }\n",
+                    meta={"pin": "empty_where"}, run=False, expect="expand")
     ws = core.Workspace(PROP, "x", unimock=False, expand_only=True, vattr=True)
-    ws.extend(cases)
+    ws.extend(cases + [pin])
     ws.write()
     ws.build()
     by = {c.id: c for c in cases}
@@ -178,6 +180,9 @@ def run(tier, seed):
                 rep.count(sig, nontrivial(r["input"]))
                 rep.sample({"case": c.id, "attr": tok.render(r["attr"]), "input": tok.render(r["input"], 700),
                             "generated_tail": tok.render(r["output"][len(r["input"]):], 500)}, limit=3)
+    for r in pin.records:
+        check_record(r, rep, pin.id, pinned="empty_where")
+    by[pin.id] = pin
     rep.bump("expansion_records", sum(len(c.records) for c in cases))
     core.floors(rep, evaluations=n // 3)
     return rep.finish(by)
